@@ -3,7 +3,6 @@ CONSTANTS MaxChunks = 12
   Fixed = TRUE
 INIT TInit
 NEXT TNext
-INVARIANT NotDone
 CONSTRAINT HW
 POSTCONDITION Post
 CHECK_DEADLOCK FALSE
